@@ -107,7 +107,7 @@ def _safe(fn, c):
 # ---------------------------------------------------------------------------------------------------------------------
 
 def metadata_cases(rng, n):
-    out = [{'kind': 'empty', 'hex': ''}, {'kind': 'garbage', 'hex': '00010203'}]
+    out = []
     for i in range(n):
         f = ct.gen_v3(rng, small=True)
         data = ct.v3_bytes(f)
@@ -120,7 +120,7 @@ def metadata_cases(rng, n):
             out.append({'kind': 'v3-cut', 'hex': data[:rng.randrange(4, max(5, len(data) // 3))].hex()})
         else:                                           # magic only
             out.append({'kind': 'v3-magic', 'hex': data[:4].hex()})
-    return out
+    return out + [{'kind': 'empty', 'hex': ''}, {'kind': 'garbage', 'hex': '00010203'}]
 
 
 def oracle_metadata(case):
@@ -134,7 +134,7 @@ def oracle_metadata(case):
         return None                                     # the cut fell behind the last chunk: parse_v3 reset the attributes itself
     bad = defaults_violated(kp, reached_header=reached or case['kind'] == 'v3-cut')
     if bad:
-        return ('kd-init:metadata-default:' + bad[0],
+        return ('kd-init:metadata-after-parse:' + bad[0],
                 'after a fresh KdBufParser parsed a %s dump of %d bytes (%s, %d events) its %s is %r, not the default'
                 % (case['kind'], len(data), ct.show_err(res.err), len(res.events), bad[0], bad[1]))
     return None
